@@ -167,7 +167,20 @@ func (e *kvElection) handleWatchEvent(entry Entry) {
 					zap.Uint64("revision", entry.Revision()),
 				)...,
 			)
-			e.becomeFollower()
+			wasLeader := e.becomeFollower()
+
+			e.mu.RLock()
+			onDemote := e.onDemote
+			e.mu.RUnlock()
+
+			if wasLeader && onDemote != nil {
+				log.Info("leader_demoted",
+					append(e.logWithContext(e.ctx),
+						zap.String("reason", "leadership_lost_via_watcher"),
+					)...,
+				)
+				onDemote()
+			}
 		}
 		return
 	}
